@@ -140,6 +140,13 @@ func ruleR13(c *Ctx) *RuleResult {
 				}
 			}
 		}
+		for _, g := range gc.GCs {
+			for _, a := range g.Guards {
+				if a.any(func(t *Term) bool { return t.Op == "narrow" && len(t.Args) == 1 && t.Args[0].Op == "dyn" && hasField(t.Args[0], "Comparator") }) {
+					bad = append(bad, "the comparator's int result is converted to a narrower integer type before it is tested: a verdict such as 256 or -512 (a-b comparators) becomes 0 or changes sign — "+trunc(noEpoch(a), 160))
+				}
+			}
+		}
 		if nneg == 0 || npos == 0 || nzero == 0 {
 			bad = append(bad, fmt.Sprintf("expected <0, >0 and ==0 paths, found %d/%d/%d", nneg, npos, nzero))
 		}
